@@ -16,6 +16,8 @@ oracle    : equality with the model's integers; patches or bins without objects
 
 from __future__ import annotations
 
+import zlib
+
 import random
 
 from harness import data, par, sky
@@ -98,6 +100,12 @@ def realise_job(ctx, job) -> None:
             obs = sky.realise(sc, exp, work, "equator", want=("trees", "hist", "cross"))
             for stage in ("trees", "hist", "cross"):
                 judge(ctx, sc, exp, obs, stage, cc, pclass, detail)
+            if cc != "interior" and zlib.crc32(repr(exp["ref"]).encode()) % 3 == 0:
+                # "everywhere" includes helper processes: the same stages with 2 workers (binning and closed side
+                # cross a pickling boundary on the deterministic multiprocessing runtime)
+                obs2 = sky.realise(sc, exp, work, "equator", want=("trees", "hist", "cross"), workers=2, sched_seed=len(repr(exp["ref"])))
+                for stage in ("trees", "hist", "cross"):
+                    judge(ctx, sc, exp, obs2, stage, cc, pclass + ",2_workers", detail)
         except Exception:  # noqa: BLE001  -> find out which stage raises
             for stage in ("trees", "hist", "cross"):
                 try:
